@@ -14,14 +14,14 @@ QUERIES = ["", "?", "?k", "?k=", "?k=v", "?k=v&l=w", "?l=w&k=v", "?k=v=w", "?k&k
 FRAGS = ["", "#", "#f", "#/r", "#!", "#!/r"]
 
 _AUTH = {"": None, "u@": ("u", False, ""), "u:p@": ("u", True, "p"), ":p@": ("", True, "p"), "u:@": ("u", True, ""),
-         "@": ("", False, "")}
+         "@": ("", False, ""), "u:p:q@": ("u", True, "p:q")}
 
 
-def text_slots(k, core_k, which=("user", "password", "seg", "key", "val", "frag")):
+def text_slots(k, core_k, which=("user", "password", "seg", "key", "val", "frag"), exclude=""):
     ex = {"user": ":@/?#", "password": "@/?#", "seg": "?#", "key": "#", "val": "#", "frag": ""}
     out = []
     for w in which:
-        full, cor = vocab.sigma(ex[w])
+        full, cor = vocab.sigma(ex[w] + exclude)
         out.append((w, grid.Text(full, k, cor, core_k)))
     return out
 
